@@ -26,7 +26,7 @@ META = {
                   "by bounded-exhaustive enumeration (every placement of 2x2, 3x2, 2x3 clouds on an integer line, three radii) "
                   "in the quick tier and for fully symbolic collinear 2x2 clouds in the thorough tier. Floating-point effects "
                   "(a rounding residue in den for parallel segments) are outside A1. Trusted: T12 (for a convex differentiable "
-                  "function on a box the KKT sign conditions characterise global minimisers), list.sort.",
+                  "function on a box the KKT sign conditions characterise global minimisers), list.sort. Call chain: over all histories of three option sets on one interface the backend request carries the tolerances of the current solve.",
     "technique": "forking symbolic execution of the real code, per-path NRA VCs (z3, cvc5 on unknown), KKT form of minimality",
 }
 
